@@ -202,12 +202,15 @@ func (l *Lexer) identifier() Token {
 }
 
 func (l *Lexer) number() Token {
-	for !l.atEnd() {
-		r := rune(l.peek())
-		if unicode.IsDigit(r) || r == '-' || r == '.' {
+	// digits with an optional fraction; an adjacent operator (3-1) or a
+	// method call on the literal (2.5.round()) is not part of the number
+	for !l.atEnd() && unicode.IsDigit(rune(l.peek())) {
+		l.advance()
+	}
+	if l.peek() == '.' && l.pos+1 < len(l.src) && unicode.IsDigit(rune(l.src[l.pos+1])) {
+		l.advance()
+		for !l.atEnd() && unicode.IsDigit(rune(l.peek())) {
 			l.advance()
-		} else {
-			break
 		}
 	}
 	return l.stringToken(Num, l.pos-l.tokenStart)
